@@ -22,3 +22,4 @@ import Props.C07
 #print axioms SpyneModel.Props.C07.message_dedup_witness
 #print axioms SpyneModel.Props.C07.handler_lookup_witness_last
 #print axioms SpyneModel.Props.C07.handler_lookup_witness
+#print axioms SpyneModel.Props.C07.xmldata_example_closed
